@@ -18,6 +18,8 @@ Decides:
  O order            construct!([a, b, c]) expands to a left-nested or_else chain in listed order (witness).
  R scope restore   an adjacent command hands back the scope it was entered with (or its own `name..end`), so the items to the right of
                     its block stay visible to the next round of `many` (shared with C05: values of a repeated choice follow the line).
+ F forkers         only the listed functions clone the State: hide() and friends evaluate on the state they were given, so the state a failed deeper
+                    branch leaves behind (its depth) is what this_or_that_picks_first compares.
 Does not decide: ordering of values collected under many/some."""
 import re
 from core import *
